@@ -1,7 +1,7 @@
 (* pqref commands for the IMPL models of the native codecs (Impl/C*.v). *)
 From Coq Require Import NArith ZArith List String Bool.
 From Pq Require Import Base.Bytes Base.Err Base.ListX Extract.Sx Extract.Cmd_Codec
-  Impl.CVarint Impl.CBitpack Impl.CRle Impl.CHybrid Impl.CDelta Impl.CEnc Impl.PyPack.
+  Impl.CVarint Impl.CBitpack Impl.CRle Impl.CHybrid Impl.CDelta Impl.CEnc Impl.PyPack Impl.CHw.
 Import ListNotations.
 Open Scope string_scope.
 
@@ -47,6 +47,11 @@ Definition table : list (string * handler) :=
     ("c_delta_unpack", h5 as_bytes as_N as_N as_N as_bool (fun b nitems fill nbytes lv =>
         sres (fun r : list N * N * N => [sNs (fst (fst r)); sN (snd (fst r)); sN (snd r)])
              (c_delta_binary_unpack b (repN fill nitems []) nbytes lv)));
+    ("c_read_bitpacked_hw", h5 as_bytes as_Z as_N as_N as_N (fun b h w cap isz => sres sdres (c_read_bitpacked_hw b h w cap isz)));
+    ("c_read_hybrid_hw", h5 as_bytes as_N as_N as_N as_N (fun b w len cap isz => sres sdres (c_read_hybrid_hw b w len cap isz)));
+    ("c_delta_unpack_hw", h5 as_bytes as_N as_N as_N as_bool (fun b nitems fill nbytes lv =>
+        sres (fun r : list N * N * N => [sNs (fst (fst r)); sN (snd (fst r)); sN (snd r)])
+             (c_delta_binary_unpack_hw b (repN fill nitems []) nbytes lv)));
     ("c_encode_bitpacked", h3 (as_list_of as_N) as_N as_N (fun vs w cap =>
         sres (fun r : bytes * N => [SB (fst r); sN (snd r)]) (c_encode_bitpacked vs w cap)));
     ("c_encode_rle_bp", h4 (as_list_of as_N) as_N as_N as_bool (fun vs w cap wl =>
